@@ -1147,11 +1147,19 @@ func (e *MetaCDC) startReplicateAPIEvent(replicateCtx context.Context, entity *R
 func (e *MetaCDC) startReplicateDMLChannel(replicateCtx context.Context, entity *ReplicateEntity) {
 	go func() {
 		for {
+			// GetChannelChan can wait for the channel registry of the target to exist, and that registry is shared
+			// with the entity that replaces this one after a pause and a resume: a loop whose context has ended
+			// meanwhile must not take the channel names announced for its successor
+			channelChan := entity.channelManager.GetChannelChan()
+			if replicateCtx.Err() != nil {
+				log.Warn("channel chan, the replicate context has closed")
+				return
+			}
 			select {
 			case <-replicateCtx.Done():
 				log.Warn("channel chan, the replicate context has closed")
 				return
-			case channelName, ok := <-entity.channelManager.GetChannelChan():
+			case channelName, ok := <-channelChan:
 				log.Info("start to replicate channel", zap.String("channel", channelName))
 				if !ok {
 					log.Warn("the channel name channel has closed")
